@@ -177,8 +177,8 @@ func (c *Ctx) subscribeLoop(fn *ssa.Function) {
 	} else {
 		// the list handed to AddReturnCodes is that phi
 		usedBy := false
-		for _, call := range c.calls(fn, pkgMessage, "SubackMessage", "AddReturnCodes") {
-			if call.Common().Args[1] == ssa.Value(codes) {
+		for _, h := range c.hostedCalls(fn, mMethod(pkgMessage, "SubackMessage", "AddReturnCodes"), 2) {
+			if v, _ := resolveChain(h.Call.Common().Args[1], h.Chain); v == ssa.Value(codes) || h.Call.Common().Args[1] == ssa.Value(codes) {
 				usedBy = true
 			}
 		}
